@@ -93,6 +93,11 @@ func (s *c09) Start(r *kit.Rng, cfg map[string]int64) {
 }
 
 func c09Item(r *kit.Rng) []byte {
+	if r.Chance(1, 14) {
+		// lengths around powers of two (block counters, length fields)
+		base := 64 << uint(r.Intn(11)) // 64 .. 65536
+		return r.Bytes(base - 2 + r.Intn(7))
+	}
 	switch r.Intn(10) {
 	case 0:
 		return []byte{}
